@@ -501,6 +501,12 @@ func (se *specEnv) call(e *Spec) sval {
 			specFail("old() not available here")
 		}
 		return se.with(se.old).evalKeep(e.Args[0])
+	case "entry":
+		// value of an expression when the enclosing loop was entered (only inside loop invariants)
+		if fr.curLoopEntry == nil {
+			specFail("entry() is only available in loop invariants")
+		}
+		return se.with(fr.curLoopEntry).evalKeep(e.Args[0])
 	case "len":
 		x := arg(0)
 		if x.sort != "Slice" {
